@@ -296,8 +296,14 @@ def check_saved_error(ctx, fb, rule):
                             won = [x for x in ev[:i] if x[0] == 'election' and x[1].startswith('compare_exchange')
                                    and x[2] is True]
                             if not won:
-                                ctx.report(rule, key, e[1], 'the saved error is written without winning the CAS from '
-                                           'the empty state: two failing inputs race on it',
+                                other = [x for x in ev[:i] if x[0] == 'election']
+                                ctx.report(rule, key, e[1],
+                                           'the failure branch %s; it must be a compare-exchange FROM the empty state so '
+                                           'that a failure never changes the word once a value (or an earlier failure) '
+                                           'was recorded — otherwise the value election can be won a second time / two '
+                                           'failures race on the saved error' % (
+                                               'elects itself with an unconditional %s' % other[-1][1] if other else
+                                               'writes the saved error without any election'),
                                            'instantiation: ' + f.full[:300])
                                 return
             elif reads and 'dtor' not in f.flags and 'ctor' not in f.flags:
